@@ -2266,7 +2266,9 @@ class Head(Expr):
     def _simplify_down(self):
         if isinstance(self.frame, Elemwise):
             operands = [
-                Head(op, self.n, self.npartitions) if isinstance(op, Expr) else op
+                Head(op, self.n, self.npartitions)
+                if isinstance(op, Expr) and not self.frame._broadcast_dep(op)
+                else op
                 for op in self.frame.operands
             ]
             return type(self.frame)(*operands)
